@@ -431,7 +431,7 @@ func c10RunCase(c c10Case) c10Case {
 		for i := e; i < len(states); i += 2 {
 			x := states[i]
 			if x != prev {
-				ok := (prev == uint32(streamOpened)) || (prev == uint32(streamHalfClosed) && x == uint32(streamClosed))
+				ok := (prev == uint32(streamOpened)) || ((prev == uint32(streamHalfClosed) || prev == c20LocalHalf) && x == uint32(streamClosed))
 				if !ok {
 					or[fmt.Sprintf("monotone: state moved from %d to %d", prev, x)] = true
 				}
